@@ -123,19 +123,57 @@ def handleSfnt : Handler := fun s =>
 
 /-! ## c05font -/
 
+/-- Correspondence of the fontbe/src/font.rs model on a real font: the slots reported by `FontWork::exec`'s
+    own log (absent / no content) plus the table bytes found in the font, pushed through the model
+    (`assembleFont` = `selectTables` + `build`), must reproduce the font byte for byte.
+    Returns (agrees?, tags dropped by `to_bytes(..).ok()` other than the legitimately empty avar). -/
+def mergeCheck (s : Sexp) (bytes : Bytes) : Option (Bool × List String) := do
+  let back ← tablesOf bytes
+  let find (t : UInt32) : Option Bytes := (back.find? (·.tag == t)).map (·.data)
+  match s.field? "merge" with
+  | some [.atom "nolog"] => some (build back == bytes, [])
+  | some m =>
+    let m := Sexp.list m
+    let skip ← (← m.field? "skip").mapM Sexp.asString?
+    let nocontent ← (← m.field? "nocontent").mapM Sexp.asString?
+    let slots := tablesToMerge.map fun t =>
+      if skip.contains (tagStr t) then Slot.absent
+      else if nocontent.contains (tagStr t) then Slot.dropped
+      else match find t with
+        | some b => Slot.bytes b
+        | none => Slot.absent   -- claimed present but not in the font: the byte comparison below fails
+    let presentOk := tablesToMerge.all fun t =>
+      skip.contains (tagStr t) || nocontent.contains (tagStr t) || (find t).isSome
+    let model := assembleFont (find baseTag) (find debgTag) slots
+    some (presentOk && model == bytes, nocontent.filter (· != "avar"))
+  | none => none
+
+def errWord (e : String) : String :=
+  match e.splitOn ":" with
+  | "build" :: k :: _ => "build:" ++ k
+  | w :: _ => w
+  | [] => "?"
+
 def handleFont : Handler := fun s =>
   let r : Option Verdict := do
     let result ← s.field? "result"
     match result with
     | [.atom "ok"] =>
       let v ← checkFontFields s
+      let bytes ← asBytes? (← s.field1? "font")
+      let (mergeOk, dropped) := (mergeCheck s bytes).getD (false, [])
       let debg := (s.field1? "compile_debg") == some (Sexp.atom "true")
       let skip := (s.field1? "skip_features") == some (Sexp.atom "true")
-      some { corr := some v.parsersAgree, oracle := some v.ok, nontrivial := true, cls := v.cls,
+      let ok := v.ok && dropped.isEmpty
+      let cls :=
+        if !v.ok then v.cls
+        else if !dropped.isEmpty then "table-dropped:" ++ dropped.head!
+        else if !mergeOk then "assembly-differs" else v.cls
+      some { corr := some (v.parsersAgree && mergeOk), oracle := some ok, nontrivial := true, cls := cls,
              tags := v.tags ++ (if debg then ["debg"] else []) ++ (if skip then ["skip-features"] else []),
              detail := v.detail }
     | .atom "err" :: e :: _ =>
-      some { corr := none, oracle := none, nontrivial := false, tags := ["err:" ++ (e.asString?.getD "?")] }
+      some { corr := none, oracle := none, nontrivial := false, tags := ["err:" ++ errWord (e.asString?.getD "?")] }
     | _ => none
   r.getD (badInput "c05font: cannot parse case")
 
